@@ -2,7 +2,9 @@
  * Contracts on the real Datatype::create_contiguous / create_vector / create_hvector / create_indexed / create_hindexed /
  * create_resized (extracted by cxx2c into gen.c). MPI-3.1 4.1: for a type built from blocks (disp_i, bl_i) of an old type
  * with lower bound lb_o, upper bound ub_o, extent ex = ub_o - lb_o:   size = sum bl_i * size_o,
- *   lb = min_i (disp_i + lb_o),   ub = max_i (disp_i + (bl_i - 1) * ex + ub_o)   over the non-empty blocks; 0,0 if none. */
+ *   lb = min_i (disp_i + lb_o),   ub = max_i (disp_i + (bl_i - 1) * ex + ub_o)   over the non-empty blocks; 0,0 if none.
+ * Second part (further down): byte-exact transfer of Type_Hindexed / Type_Hvector / Type_Struct ::serialize / unserialize,
+ * observed through a ghost log of the leaf transfers (memcpy, nested (un)serialize, Op::apply).                        */
 #include "gen.h"
 
 #define SUCCESS 0
@@ -270,7 +272,7 @@ void Op__apply(struct Op* self, void* invec, void* inoutvec, int* len, struct Da
 #define SWF_OLD (g_old.flags_ >= 0 && 1 <= g_old.size_ && g_old.size_ <= SV && 0 <= LB_O && LB_O <= SV && LB_O < UB_O && UB_O <= LB_O + 2 * SV && (OLD_DERIVED || (LB_O == 0 && UB_O == SZ_O)))
 /* the type itself carries the MPI extent of its layout (what a correct constructor stores): ub - lb == ext */
 #define SELF_EXT(d, ext) (0 <= (d).lb_ && (d).lb_ <= 4 * SDISP && (d).ub_ == (d).lb_ + (ext))
-#define LOG_EMPTY (g_hits == 0 && g_total == 0 && !g_bad)
+#define LOG_EMPTY (g_hits == 0 && g_total == 0 && !g_bad && g_nc_off == 0 && g_rel == 0 && g_kind == 0 && g_cnt == 0)
 
 /* ---- hindexed ---- */
 #define HS_BC (g_hx.block_count_)
@@ -366,6 +368,54 @@ void Type_Hvector__unserialize(struct Type_Hvector* self, void* contiguous_buf, 
     __CPROVER_ensures(VS_NCPOS(VS_EXTENT))
     /*@ hvector_unserialize_copy_c_lies_c_extents_after_copy_0 */;
 
+/* ---- struct: block k holds bl_k elements of ITS OWN old type at byte displacement disp_k. The extent is the one the type
+ * carries (ub_ - lb_, whatever the constructor stored: MPI_LB / MPI_UB markers and alignment padding are not modelled):
+ * copy c lies c stored extents after copy 0. ---- */
+struct Type_Struct g_ts;
+struct Datatype g_o0, g_o1, g_o2; /* the old types of the three blocks */
+struct Datatype* g_olds[SBC];
+#define O_SZ(k) ((k) == 0 ? g_o0.size_ : (k) == 1 ? g_o1.size_ : g_o2.size_)
+#define O_DER(k) (((((unsigned int)((k) == 0 ? g_o0.flags_ : (k) == 1 ? g_o1.flags_ : g_o2.flags_)) & DERIVED) != 0))
+#define SWF_O(o) ((o).flags_ >= 0 && 1 <= (o).size_ && (o).size_ <= SV && 0 <= (o).lb_ && (o).lb_ <= SV && (o).lb_ < (o).ub_ && (o).ub_ <= (o).lb_ + 2 * SV)
+#define TS_BC (g_ts.block_count_)
+#define TS_BSZ(k) ((unsigned long)g_sbl[k] * O_SZ(k))
+#define TS_COPYSZ (TS_BSZ(0) + (1 < TS_BC ? TS_BSZ(1) : 0) + (2 < TS_BC ? TS_BSZ(2) : 0))
+#define TS_PREF(k) (((k) > 0 ? TS_BSZ(0) : 0) + ((k) > 1 ? TS_BSZ(1) : 0))
+#define TS_EXT (g_ts.__b_Datatype.ub_ - g_ts.__b_Datatype.lb_)
+#define TS_PRE                                                                                                         \
+  (vf_exc == 0 && self == &g_ts && g_ts.block_indices_ == g_sdisp && g_ts.block_lengths_ == g_sbl && g_ts.old_types_ == g_olds &&   \
+   g_olds[0] == &g_o0 && g_olds[1] == &g_o1 && g_olds[2] == &g_o2 && 1 <= TS_BC && TS_BC <= SBC && 0 <= count && count <= SCNT &&      \
+   HS_BLK_OK(0) && HS_BLK_OK(1) && HS_BLK_OK(2) && SWF_O(g_o0) && SWF_O(g_o1) && SWF_O(g_o2) && 0 <= g_ts.__b_Datatype.lb_ &&       \
+   g_ts.__b_Datatype.lb_ <= 4 * SDISP && g_ts.__b_Datatype.lb_ <= g_ts.__b_Datatype.ub_ && g_ts.__b_Datatype.ub_ <= 8 * SDISP && LOG_EMPTY)
+#define TS_GHOST                                                                                                       \
+  (0 <= g_c && g_c < count && 0 <= g_k && g_k < TS_BC && g_b < TS_BSZ(g_k) && g_D == (g_c == 1 ? TS_COPYSZ : 0) + TS_PREF(g_k) + g_b)
+#define TS_NCPOS(ext) (g_nc_off + (g_kind == 1 ? g_rel : 0) == (unsigned long)((g_c == 1 ? (ext) : 0) + g_sdisp[g_k]) + (g_kind == 1 ? g_b : 0))
+#define TS_KIND (g_kind == (O_DER(g_k) ? 2 : 1) && (g_kind == 1 || (g_cnt == g_sbl[g_k] && g_rel == g_b)))
+void Type_Struct__serialize(struct Type_Struct* self, void* noncontiguous_buf, void* contiguous_buf, int count)
+    __CPROVER_requires(TS_PRE && noncontiguous_buf == g_nbuf && contiguous_buf == g_cbuf && TS_GHOST)
+    __CPROVER_assigns(LOG_FRAME)
+    __CPROVER_ensures(vf_exc == 0)
+    __CPROVER_ensures(g_hits == 1 && TS_KIND)
+    /*@ struct_serialize_every_packed_byte_is_written_exactly_once_by_the_transfer_of_its_block */
+    __CPROVER_ensures(!g_bad && g_total == (count >= 1 ? TS_COPYSZ : 0) + (count >= 2 ? TS_COPYSZ : 0))
+    /*@ struct_serialize_fills_the_packed_buffer_in_order_without_gaps */
+    __CPROVER_ensures(g_c != 0 || TS_NCPOS(0))
+    /*@ struct_serialize_first_copy_takes_each_block_at_its_displacement */
+    __CPROVER_ensures(TS_NCPOS(TS_EXT))
+    /*@ struct_serialize_copy_c_lies_c_extents_after_copy_0 */;
+void Type_Struct__unserialize(struct Type_Struct* self, void* contiguous_buf, void* noncontiguous_buf, int count, struct Op* op)
+    __CPROVER_requires(TS_PRE && noncontiguous_buf == g_nbuf && contiguous_buf == g_cbuf && op == &g_op && TS_GHOST)
+    __CPROVER_assigns(LOG_FRAME)
+    __CPROVER_ensures(vf_exc == 0)
+    __CPROVER_ensures(g_hits == 1 && TS_KIND)
+    /*@ struct_unserialize_every_packed_byte_is_consumed_exactly_once_by_the_transfer_of_its_block */
+    __CPROVER_ensures(!g_bad && g_total == (count >= 1 ? TS_COPYSZ : 0) + (count >= 2 ? TS_COPYSZ : 0))
+    /*@ struct_unserialize_consumes_the_packed_buffer_in_order_without_gaps */
+    __CPROVER_ensures(g_c != 0 || TS_NCPOS(0))
+    /*@ struct_unserialize_first_copy_puts_each_block_at_its_displacement */
+    __CPROVER_ensures(TS_NCPOS(TS_EXT))
+    /*@ struct_unserialize_copy_c_lies_c_extents_after_copy_0 */;
+
 #define memcpy vf_memcpy_log /* the units' memcpy calls go to the logging stub (the models in gen.h are already parsed) */
 #include "gen.c"
 #undef memcpy
@@ -400,6 +450,12 @@ static void setup_ser(void)
   g_hx.block_lengths_  = g_sbl;
   g_hx.old_type_       = &g_old;
   g_hv.old_type_       = &g_old;
+  g_ts.block_indices_  = g_sdisp;
+  g_ts.block_lengths_  = g_sbl;
+  g_ts.old_types_      = g_olds;
+  g_olds[0]            = &g_o0;
+  g_olds[1]            = &g_o1;
+  g_olds[2]            = &g_o2;
 }
 #ifdef H_hindexed_serialize
 void harness(void) { setup_ser(); Type_Hindexed__serialize(&g_hx, g_nbuf, g_cbuf, nondet_int()); VF_CANARY_POINT; }
@@ -412,4 +468,10 @@ void harness(void) { setup_ser(); Type_Hvector__serialize(&g_hv, g_nbuf, g_cbuf,
 #endif
 #ifdef H_hvector_unserialize
 void harness(void) { setup_ser(); Type_Hvector__unserialize(&g_hv, g_cbuf, g_nbuf, nondet_int(), &g_op); VF_CANARY_POINT; }
+#endif
+#ifdef H_struct_serialize
+void harness(void) { setup_ser(); Type_Struct__serialize(&g_ts, g_nbuf, g_cbuf, nondet_int()); VF_CANARY_POINT; }
+#endif
+#ifdef H_struct_unserialize
+void harness(void) { setup_ser(); Type_Struct__unserialize(&g_ts, g_cbuf, g_nbuf, nondet_int(), &g_op); VF_CANARY_POINT; }
 #endif
